@@ -1,8 +1,100 @@
 (** CmdC16.v — command table of the model runner for property C16
-    (commands 1600 .. 1699 of [run_cmd]; local number = c mod 100). *)
-From JSL Require Import Base.
+    (commands 1600 .. 1699 of [run_cmd]; local number = c mod 100).
+
+    1  [I; b]              graph of builder [b] (0 disjunctive, 1 agent-task,
+                           2 agent-task with jobs, 3 complete agent-task)
+    2  [I; S]              build_solved_disjunctive_graph of the rows [S]
+    3  [I; b; nodes; edges]   oracle: extracted specification applied to an
+                           observed node list / edge list
+    4  [I; S; nodes; edges]   the same for the solved graph (+ every edge
+                           respects the schedule's times)
+    5  [I; b; S; ids]      build (b = 4: solved graph of [S]), then
+                           [remove_node id] for each id; state after each call
+
+    A graph is reported as [[1; nodes; edges sorted by (u, v); nodes_by_type ids;
+    nodes_by_machine; nodes_by_job; removed_nodes]] or [[0]] when the builder
+    raised. *)
+From JSL Require Import Base Instance Dstate Graph Feasible GraphSpec.
+
+Definition edge_leb (a b : edge) : bool :=
+  (e_src a <? e_src b)%nat || ((e_src a =? e_src b)%nat && (e_dst a <=? e_dst b)%nat).
+Fixpoint insert_edge (e : edge) (l : list edge) : list edge :=
+  match l with
+  | [] => [e]
+  | x :: t => if edge_leb e x then e :: l else x :: insert_edge e t
+  end.
+Definition sort_edges (l : list edge) : list edge := fold_right insert_edge [] l.
+
+Definition enc_graph (og : option graph) : val :=
+  match og with
+  | None => VL [VI 0]
+  | Some g =>
+      VL [VI 1;
+          vlist enc_node (g_nodes g);
+          vlist enc_edge (sort_edges (g_edges g));
+          vlist (vlist (fun x => vnat (fst x))) (g_by_type g);
+          vlist (vlist vnat) (g_by_machine g);
+          vlist (vlist vnat) (g_by_job g);
+          vlist vbool (g_removed g)]
+  end.
+
+Definition build_any (b : nat) (I : instance) (S : schedule) : option graph :=
+  if (b =? 4)%nat then build_solved_disjunctive_graph I S else build_by_code b I.
+
+Definition cmd_build (v : val) : val :=
+  enc_graph (build_by_code (asN (vnth v 1)) (dec_instance (vnth v 0))).
+
+Definition cmd_solved (v : val) : val :=
+  enc_graph (build_solved_disjunctive_graph (dec_instance (vnth v 0)) (dec_sched (vnth v 1))).
+
+Definition cmd_oracle (v : val) : val :=
+  let I := dec_instance (vnth v 0) in
+  let b := asN (vnth v 1) in
+  let nodes := asLof dec_node (vnth v 2) in
+  let es := asLof dec_edge (vnth v 3) in
+  VL [vbool (nodes_eqb nodes (spec_nodes b I));
+      vbool (edges_soundb (spec_edgesb b I) es);
+      vbool (edges_completeb (spec_edgesb b I) (length nodes) es);
+      vbool (keys_nodupb es);
+      vbool (nonempty_jobsb I); vbool (nodup_machinesb I)].
+
+Definition cmd_oracle_solved (v : val) : val :=
+  let I := dec_instance (vnth v 0) in
+  let S := dec_sched (vnth v 1) in
+  let nodes := asLof dec_node (vnth v 2) in
+  let es := asLof dec_edge (vnth v 3) in
+  VL [vbool (nodes_eqb nodes (nodes_disjunctive I));
+      vbool (edges_soundb (spec_solvedb I S) es);
+      vbool (edges_completeb (spec_solvedb I S) (length nodes) es);
+      vbool (keys_nodupb es);
+      vbool (edges_respect_timeb I S es);
+      vbool (feasibleb I S && completeb I S); vbool (positiveb I); vbool (nonempty_jobsb I);
+      VI (makespan I S)].
+
+Fixpoint remove_seq (g : graph) (ids : list nat) : list val :=
+  match ids with
+  | [] => []
+  | u :: r =>
+      match remove_node g u with
+      | Some g' => VL [VI 1; vlist vbool (g_removed g'); vlist enc_edge (sort_edges (g_edges g'));
+                       vlist (fun x => vnat (fst x)) (non_removed_nodes g')] :: remove_seq g' r
+      | None => VL [VI 0] :: remove_seq g r
+      end
+  end.
+
+Definition cmd_remove (v : val) : val :=
+  let I := dec_instance (vnth v 0) in
+  match build_any (asN (vnth v 1)) I (dec_sched (vnth v 2)) with
+  | Some g => VL (remove_seq g (asLof asN (vnth v 3)))
+  | None => VL [VI 0]
+  end.
 
 Definition run_c16 (c : Z) (v : val) : val :=
   match c with
+  | 1 => cmd_build v
+  | 2 => cmd_solved v
+  | 3 => cmd_oracle v
+  | 4 => cmd_oracle_solved v
+  | 5 => cmd_remove v
   | _ => VL []
   end.
